@@ -23,6 +23,8 @@ def gen_inputs(rng, n, kinds, shield_p=0.15, pre_p=0.15):
             d["vt"] = rng.choice(TRUTHY)
         elif kind == 2:
             d["vt"] = singles.pop() if (singles and rng.random() < 0.3) else rng.choice(FALSY_FRESH)
+        if kind == 3 and rng.random() < 0.3:
+            d["et"] = rng.choice(["cancelled_error", "base"])
         if kind != 4 and rng.random() < 0.2:
             d["run"] = True
         if kind != 4 and rng.random() < shield_p:
